@@ -54,3 +54,44 @@ Theorem C09_duplicates_within_limit_after_every_handler : forall fixed s ev bits
   s_bad s' = 0 -> forall i, 0 <= i < np_of s' -> over_dup s' i = false.
 Proof. intros fixed s ev bits asg s' H. apply (step_no_idle fixed s ev bits asg H). Qed.
 Print Assumptions C09_duplicates_within_limit_after_every_handler.
+
+(* ---- web-seed half (PickerWs.v, kind 903) ---- *)
+From RainV Require Import PickerWs PickerWsProofs.
+
+(* every history of peer events, picks (whichever legal answer the picker gave), web-seed range
+   assignments, stop-ats, closes and advances of the downloader goroutines, for any number of
+   pieces, peers and sources, both modes, any end-game limit and gap limit: the owner index and the
+   ranges describe each other, the peer-half invariants hold, the availability counter is exact *)
+Theorem C09_webseed_invariants_all_histories : forall ps seq md nsrc mws ops s,
+  Forall (fun p => p_req p = [] /\ p_having p = []) ps ->
+  run_wops (init_ws ps seq md nsrc mws) ops = Some s ->
+  WInv s /\ PInv (base s) /\ avail (base s) = count_held (pieces (base s)).
+Proof. exact reachable_inv3. Qed.
+Print Assumptions C09_webseed_invariants_all_histories.
+
+(* piece ranges assigned to web seeds never overlap *)
+Theorem C09_webseed_ranges_never_overlap : forall s k1 k2 d1 d2, WInv s ->
+  0 <= k1 < zlen (srcs s) -> 0 <= k2 < zlen (srcs s) -> k1 <> k2 ->
+  get_src s k1 = Some d1 -> get_src s k2 = Some d2 -> d_end d1 <= d_begin d2 \/ d_end d2 <= d_begin d1.
+Proof. exact ranges_disjoint. Qed.
+Print Assumptions C09_webseed_ranges_never_overlap.
+
+(* while a web seed is downloading, a piece handed to a peer (last piece of the smallest gap, or
+   stolen from a web-seed range) is neither done nor being written, is held by the peer, is not
+   being downloaded by anyone, and the peer is idle and unchoking us *)
+Theorem C09_webseed_mode_pick_sound : forall s pe i af s', WInv s -> downloading_ws s = true ->
+  wpick_check s pe (Some (i, af)) = Some s' ->
+  (in_range (base s) i = true /\ open_ (get_piece (base s) i) = true /\
+   In pe (p_having (get_piece (base s) i)) /\ p_req (get_piece (base s) i) = []) /\
+  pe_downloading (get_peer (peers (base s)) pe) = false /\ pe_choking (get_peer (peers (base s)) pe) = false.
+Proof. exact ws_pick_sound. Qed.
+Print Assumptions C09_webseed_mode_pick_sound.
+
+(* the three ownership assertions of the picker ("already downloading from webseed url", "invalid
+   source in piece" in CloseWebseedDownloader and WebseedStopAt) cannot fire in a reachable state *)
+Theorem C09_webseed_assertions_unreachable : forall s, WInv s ->
+  (forall k, 0 <= k < zlen (srcs s) -> close_ws s k <> None) /\
+  (forall i k, 0 <= i < npieces s -> get_owner s i = Some k -> stop_at s k i <> None) /\
+  (forall obs s1 b e, ws_check s obs = Some s1 -> obs = Some (b, e) -> (b <? e) && range_owned s1 b e None = true).
+Proof. exact no_ownership_panic. Qed.
+Print Assumptions C09_webseed_assertions_unreachable.
